@@ -288,6 +288,25 @@ def reorderLoop : Nat → Nat → Reorder → Reorder
                    ds := insertAt pos d (s.ds.eraseIdx i) }
       | _ => reorderLoop n (i + 1) s
 
+/-- the same loop one list-method call at a time: the contents of the list after every `pop` and every
+    `insert` (what another thread holding a reference to the list can see, before the fix) -/
+def reorderMicro : Nat → Nat → List Dir → Bool → List (List Dir)
+  | 0, _, _, _ => []
+  | n + 1, i, ds, dom =>
+    match ds[i]? with
+    | none => []
+    | some d =>
+      match d.kind with
+      | .i18nDomain dm =>
+        let a := ds.eraseIdx i
+        let b := d :: a
+        a :: b :: reorderMicro n (i + 1) b (!dm.isEmpty)
+      | .i18nCtxt _ =>
+        let a := ds.eraseIdx i
+        let b := insertAt (if dom then 1 else 0) d a
+        a :: b :: reorderMicro n (i + 1) b dom
+      | _ => reorderMicro n (i + 1) ds dom
+
 def strTruthy : Option Str → Bool
   | some s => !s.isEmpty
   | none => false
